@@ -125,15 +125,23 @@ def gen_matrix(rng):
 def gen_string(rng, font, maxlen=5) -> str:
     n = rng.randint(0, maxlen) if rng.random() < 0.9 else rng.randint(0, 12)
     first, cnt = font["first"], len(font["widths"])
+    multi = font.get("kind", "simple") in ("cidh", "cidv")
     out = []
     for _ in range(n):
         r = rng.random()
         if r < 0.2:
-            out.append(32)
+            c = 32
         elif r < 0.9 and cnt:
-            out.append(rng.randint(first, min(255, first + cnt - 1)))
+            c = rng.randint(first, first + cnt - 1)
         else:
-            out.append(rng.randint(0, 255))
+            c = rng.randint(0, 65535 if multi else 255)
+        if multi:
+            c = min(c, 65535)
+            out += [c >> 8, c & 255]
+        else:
+            out.append(min(c, 255))
+    if multi and rng.random() < 0.08:
+        out.append(rng.randint(0, 255))       # a trailing odd byte is not a code
     return bytes(out).hex()
 
 
@@ -147,8 +155,34 @@ def gen_font(rng, idx):
             ws.append(rng.choice([250, 500, 750, 1000, 125, 0, 2000]))      # /1000 often exact in binary
         else:
             ws.append(rng.randint(0, 1200))
-    return {"name": "Vf%c%d" % (65 + idx, rng.randint(0, 9)), "first": first, "widths": ws,
-            "mw": rng.choice([0, 0, 500, 300, 1000]), "descent": rng.choice([0, -200, -250, -120, -500])}
+    f = {"name": "Vf%c%d" % (65 + idx, rng.randint(0, 9)), "first": first, "widths": ws,
+         "mw": rng.choice([0, 0, 500, 300, 1000]), "descent": rng.choice([0, -200, -250, -120, -500]), "kind": "simple"}
+    r = rng.random()
+    if r < 0.14:
+        # Type 3: glyph space -> text space by the FontMatrix (skew terms included), descent from the FontBBox
+        f["kind"] = "type3"
+        a = rng.choice([F(1, 1000), F(1, 1024), F(1, 512), F(1, 100), F(1, 2048)])
+        d = rng.choice([a, F(1, 1000), F(1, 512), -a])
+        f["fm"] = [str(a), str(rng.choice([F(0), F(0), F(1, 4096), -F(1, 2048)])),
+                   str(rng.choice([F(0), F(0), F(1, 4096), F(1, 1024)])), str(d), "0", "0"]
+        f["descent"] = rng.choice([0, -200, -128, 64])
+    elif r < 0.26:
+        f["kind"] = "cidh"            # Type0 / Identity-H: two-byte codes, no word spacing
+        f["first"] = rng.choice([0, 1, 32, 300])
+    elif r < 0.42:
+        f["kind"] = "cidv"            # Type0 / Identity-V: vertical writing
+        f["first"] = rng.choice([0, 1, 32, 300])
+        f["widths"] = [rng.choice([-1000, -1000, -500, -880, 0, 600, -rng.randint(0, 1200)]) for _ in ws]
+        f["disps"] = [[rng.choice([500, 250, 0, 440, -100]), rng.choice([880, 800, 1000, 0, 500])] for _ in ws]
+        f["mw"] = rng.choice([-1000, -1000, -500, 0])
+        f["dvy"] = rng.choice([880, 880, 1000, 0])
+    return f
+
+
+def font_decode(font: dict, b: bytes) -> List[int]:
+    if font.get("kind", "simple") in ("cidh", "cidv"):
+        return [b[i] * 256 + b[i + 1] for i in range(0, len(b) - 1, 2)]
+    return list(b)
 
 
 ILL = [["/", "Zz"], ["s", "7a51"], ["z"], ["a", []], ["a", [["n", "1"]]]]
@@ -484,10 +518,37 @@ def page_ctm(mediabox, rotate):
 def build_pdf(case: dict) -> bytes:
     objs: Dict[int, Any] = {}
     for i, f in enumerate(case["fonts"]):
-        d = {"Type": "Font", "Subtype": "Type1", "BaseFont": f["name"], "FirstChar": f["first"],
-             "LastChar": f["first"] + max(0, len(f["widths"]) - 1), "Widths": list(f["widths"]),
-             "FontDescriptor": {"Type": "FontDescriptor", "FontName": f["name"], "Flags": 32,
-                                "Descent": f["descent"], "MissingWidth": f["mw"], "FontBBox": [0, -200, 1000, 800]}}
+        kind = f.get("kind", "simple")
+        desc = {"Type": "FontDescriptor", "FontName": f["name"], "Flags": 32, "Descent": f["descent"],
+                "MissingWidth": f["mw"], "FontBBox": [0, -200, 1000, 800]}
+        if kind == "simple":
+            d = {"Type": "Font", "Subtype": "Type1", "BaseFont": f["name"], "FirstChar": f["first"],
+                 "LastChar": f["first"] + max(0, len(f["widths"]) - 1), "Widths": list(f["widths"]),
+                 "FontDescriptor": desc}
+        elif kind == "type3":
+            desc = dict(desc, FontBBox=[0, f["descent"], 1000, 800])
+            d = {"Type": "Font", "Subtype": "Type3", "FontBBox": [0, f["descent"], 1000, 800],
+                 "FontMatrix": [F(x) for x in f["fm"]], "CharProcs": {}, "FirstChar": f["first"],
+                 "LastChar": f["first"] + max(0, len(f["widths"]) - 1), "Widths": list(f["widths"]),
+                 "FontDescriptor": desc}
+        else:
+            cid = {"Type": "Font", "Subtype": "CIDFontType2", "BaseFont": f["name"],
+                   "CIDSystemInfo": {"Registry": b"Adobe", "Ordering": b"Identity", "Supplement": 0},
+                   "FontDescriptor": {k: v for k, v in desc.items() if k != "MissingWidth"}}
+            if kind == "cidh":
+                cid["DW"] = f["mw"]
+                if f["widths"]:
+                    cid["W"] = [f["first"], list(f["widths"])]
+            else:
+                cid["DW2"] = [f["dvy"], f["mw"]]
+                if f["widths"]:
+                    flat = []
+                    for w, (vx, vy) in zip(f["widths"], f["disps"]):
+                        flat += [w, vx, vy]
+                    cid["W2"] = [f["first"], flat]
+            objs[60 + i] = cid
+            d = {"Type": "Font", "Subtype": "Type0", "BaseFont": f["name"],
+                 "Encoding": "Identity-H" if kind == "cidh" else "Identity-V", "DescendantFonts": [W.Ref(60 + i)]}
         objs[20 + i] = d
 
     def res_obj(res):
@@ -580,20 +641,41 @@ def mapply(m, p):
     return (a * p[0] + c * p[1] + e, b * p[0] + d * p[1] + f)
 
 
-def font_w0(font: dict, code: int) -> F:
+def font_width(font: dict, code: int) -> F:
     i = code - font["first"]
-    w = font["widths"][i] if 0 <= i < len(font["widths"]) else font["mw"]
-    return F(w) / 1000
+    return F(font["widths"][i] if 0 <= i < len(font["widths"]) else font["mw"])
 
 
-def observe(trm, w0, tfs, th, rise, font: dict, col) -> dict:
+def font_scales(font: dict) -> Tuple[F, F]:
+    if font.get("kind") == "type3":
+        return F(font["fm"][0]), F(font["fm"][3])      # 9.6.5: (w, 0) x FontMatrix = (w a, ...)
+    return F(1, 1000), F(1, 1000)
+
+
+def observe(trm, font: dict, tfs, th, rise, code: int, col) -> dict:
     """What LTChar reports for a glyph the text model places with Tm x CTM = trm."""
-    adv = w0 * tfs * th
-    desc = F(font["descent"]) / 1000 * tfs
-    pts = [mapply(trm, (x, y)) for x in (F(0), adv) for y in (desc + rise, desc + rise + tfs)]
+    hs, vs = font_scales(font)
+    w = font_width(font, code) * hs
+    if font.get("kind") == "cidv":
+        adv = w * tfs
+        i = code - font["first"]
+        if 0 <= i < len(font["disps"]):
+            vx = F(font["disps"][i][0]) / 1000 * tfs
+            vy0 = F(font["disps"][i][1])
+        else:
+            vx = tfs / 2
+            vy0 = F(font["dvy"])
+        vy = (1000 - vy0) / 1000 * tfs
+        box = (-vx, vy + rise + adv, -vx + tfs, vy + rise)
+    else:
+        adv = w * tfs * th
+        desc = F(font["descent"]) * vs * tfs
+        box = (F(0), desc + rise, adv, desc + rise + tfs)
+    pts = [mapply(trm, (x, y)) for x in (box[0], box[2]) for y in (box[1], box[3])]
     x0, x1 = min(p[0] for p in pts), max(p[0] for p in pts)
     y0, y1 = min(p[1] for p in pts), max(p[1] for p in pts)
-    return {"m": list(trm), "adv": adv, "bbox": [x0, y0, x1, y1], "size": y1 - y0, "font": font["name"],
+    return {"m": list(trm), "adv": adv, "bbox": [x0, y0, x1, y1],
+            "size": (x1 - x0) if font.get("kind") == "cidv" else (y1 - y0), "font": font["name"],
             "col": None if col is None else list(col)}
 
 
@@ -731,18 +813,21 @@ class SpecMachine:
         if g["font"] is None:
             raise Out("no font")
         font = self.case["fonts"][g["font"]]
+        kind = font.get("kind", "simple")
+        vertical, multi = kind == "cidv", kind in ("cidh", "cidv")
+        hs, _ = font_scales(font)
         tm = txt["Tm"]
         th = g["Th"] / 100
         for e in seq:
             if e[0] == "n":
-                tx = (-F(e[1]) / 1000 * g["Tfs"]) * th
-                tm = mmul(mtrans(tx, F(0)), tm)
+                t = -F(e[1]) / 1000 * g["Tfs"]
+                tm = mmul(mtrans(F(0), t) if vertical else mtrans(t * th, F(0)), tm)
             else:
-                for code in bytes.fromhex(e[1]):
-                    w0 = font_w0(font, code)
-                    self.glyphs.append(observe(mmul(tm, g["ctm"]), w0, g["Tfs"], th, g["Trise"], font, g["ncol"]))
-                    tx = (w0 * g["Tfs"] + g["Tc"] + (g["Tw"] if code == 32 else 0)) * th
-                    tm = mmul(mtrans(tx, F(0)), tm)
+                for code in font_decode(font, bytes.fromhex(e[1])):
+                    w = font_width(font, code) * hs
+                    self.glyphs.append(observe(mmul(tm, g["ctm"]), font, g["Tfs"], th, g["Trise"], code, g["ncol"]))
+                    d = w * g["Tfs"] + g["Tc"] + (g["Tw"] if (code == 32 and not multi) else 0)
+                    tm = mmul(mtrans(F(0), d) if vertical else mtrans(d * th, F(0)), tm)
         return {"Tm": tm, "Tlm": txt["Tlm"]}
 
 
@@ -854,8 +939,15 @@ def enc_case(case: dict, mode: str) -> str:
     """One request line.  Streams are sent separately (the model folds over them)."""
     parts = [f"c05 {mode} " + " ".join(fs(x) for x in page_ctm(case["mediabox"], case.get("rotate", 0)))]
     for f in case["fonts"]:
-        parts.append("font %s %d %d %d %s" % (f["name"].encode("latin-1").hex(), f["first"], f["mw"], f["descent"],
-                                                " ".join(str(w) for w in f["widths"]) or "-"))
+        kind = f.get("kind", "simple")
+        if kind == "type3":
+            k = "t3:" + ",".join(fs(F(x)) for x in f["fm"])
+        elif kind == "cidv":
+            k = "cidv:%d:%s" % (f["dvy"], ";".join("%d,%d" % (vx, vy) for vx, vy in f["disps"]) or "-")
+        else:
+            k = {"simple": "s", "cidh": "cidh"}[kind]
+        parts.append("font %s %d %d %d %s %s" % (f["name"].encode("latin-1").hex(), f["first"], f["mw"], f["descent"], k,
+                                                   " ".join(str(w) for w in f["widths"]) or "-"))
     for fm in case["forms"]:
         m = " ".join(fs(F(x)) for x in fm["matrix"]) if fm["matrix"] is not None else "nomatrix"
         parts.append(f"form {m} ; {enc_res(fm['res'])} ; {enc_prog(fm['prog'])}")
@@ -1047,6 +1139,8 @@ def flush(ctx: C.Ctx, batch: list) -> None:
             ctx.branch("op:" + o)
         ctx.branch("streams:%d" % (len(case.get("splits", [])) + 1))
         ctx.branch("forms:%d" % len(case["forms"]))
+        for f in case["fonts"]:
+            ctx.branch("font:" + f.get("kind", "simple"))
         if psp[0] == "out":
             ctx.branch("out:" + psp[1])
         for t in tags_for(case, 0, "", None, None)["illtyped_ops"]:
@@ -1187,6 +1281,25 @@ def directed_cases() -> List[dict]:
     c["prog"] = json.loads(json.dumps([["Tf", [["/", "F1"], N(9)]], ["rg", [N(1), N(0), N(F(1, 2))]], ["Tc", [N(3)]],
                                        ["Do", [["/", "X0"]]]]))
     c["name"] = "form-inherits-state"
+    out.append(c)
+    # vertical writing under 50 Tz with Tc and a TJ adjustment: ty is not scaled by Th
+    c = json.loads(json.dumps(base))
+    c["fonts"].append({"name": "VfV1", "first": 1, "widths": [-1000, -880], "mw": -900, "descent": -120, "kind": "cidv",
+                       "disps": [[500, 880], [440, 800]], "dvy": 880})
+    c["res"]["fonts"]["V1"] = 1
+    c["prog"] = json.loads(json.dumps([["BT", []], ["Tf", [["/", "V1"], N(10)]], ["Tm", [N(1), N(0), N(0), N(1), N(300), N(700)]],
+                                       ["Tz", [N(50)]], ["Tc", [N(2)]], ["Tj", [["s", "00010003"]]],
+                                       ["TJ", [["a", [N(100), ["s", "0002"]]]]], ["ET", []]]))
+    c["name"] = "vertical-Tz"
+    out.append(c)
+    # Type 3 font with a skewed FontMatrix: the horizontal scale is its a entry
+    c = json.loads(json.dumps(base))
+    c["fonts"].append({"name": "VfT1", "first": 65, "widths": [512, 1024, 300], "mw": 0, "descent": -128, "kind": "type3",
+                       "fm": ["1/512", "0", "1/1024", "1/1024", "0", "0"]})
+    c["res"]["fonts"]["T3"] = 1
+    c["prog"] = json.loads(json.dumps([["BT", []], ["Tf", [["/", "T3"], N(8)]], ["Tm", [N(1), N(0), N(0), N(1), N(50), N(600)]],
+                                       ["Tc", [N(1)]], ["Tj", [S("ABC")]], ["ET", []]]))
+    c["name"] = "type3-fontmatrix"
     out.append(c)
     return out
 
